@@ -243,8 +243,9 @@ def make_machine_base():
             self.log.append(op)
             try:
                 return self.interp.apply(op)
-            except Violation:
+            except Violation as v:
                 self.failed = True
+                _CURRENT["last_machine_violation"] = {"sig": v.sig, "msg": v.msg, "case": {"ops": list(self.log)}}
                 raise
 
         def teardown(self):
@@ -324,6 +325,7 @@ def run_task(prop, sub: Sub, tier: str, base_seed: int, shard: int, nshards: int
                     else:
                         from hypothesis.stateful import run_state_machine_as_test
                         _CURRENT["stats"] = stats
+                        _CURRENT["last_machine_violation"] = None
                         cls = sub.machine
                         run_state_machine_as_test(seed(s)(cls), settings=_hyp_settings(n, tier, sub.steps))
                     break
@@ -343,7 +345,19 @@ def run_task(prop, sub: Sub, tier: str, base_seed: int, shard: int, nshards: int
                 except Exception as e:
                     # Hypothesis reports a predicate that fails only some of the times it is run on the same
                     # case as Flaky*: the case and the violation it last produced are still a real observation
-                    if type(e).__name__ in ("FlakyFailure", "Flaky", "FlakyReplay") and stats.last_violation:
+                    flaky = type(e).__name__ in ("FlakyFailure", "Flaky", "FlakyReplay", "FlakyStrategyDefinition")
+                    if flaky and sub.kind == "machine" and _CURRENT.get("last_machine_violation"):
+                        # a history that violated the property once and not when Hypothesis re-ran it (state leaking between the
+                        # objects of successive runs): the first observation stands; known findings stay quiet
+                        v = dict(_CURRENT["last_machine_violation"])
+                        if v["sig"] in stats.known:
+                            stats.known_hits[v["sig"]] += 1
+                            stats.known_examples.setdefault(v["sig"], v["case"])
+                        else:
+                            v["msg"] = "(not reproducible on every run of the same history) " + v["msg"]
+                            violations.append(v)
+                        break
+                    if flaky and stats.last_violation:
                         v = dict(stats.last_violation)
                         v["msg"] = "(not reproducible on every run of the same case) " + v["msg"]
                         violations.append(v)
